@@ -84,6 +84,14 @@ Theorem C04_label_above_bottom_refuted :
 Proof. exact label_above_bottom_refuted. Qed.
 Print Assumptions C04_label_above_bottom_refuted.
 
+(* a whole MP_REACH_NLRI / MP_UNREACH_NLRI NLRI field of a core family, with or without ADD-PATH identifiers: the loop
+   (identifier, NLRIFromSlice, advance by Len()) reads back exactly the list that was serialised *)
+Theorem C04_mp_nlri_field_roundtrip : forall ap k alen l fuel,
+  Forall (entry_wf ap k alen) l ->
+  exists b, enc_nlri_list ap k l = Some b /\ ((length l <= fuel)%nat -> dec_nlri_list fuel ap k alen b = Some l).
+Proof. intros ap k alen l fuel. exact (nlri_list_roundtrip ap k alen l fuel). Qed.
+Print Assumptions C04_mp_nlri_field_roundtrip.
+
 Definition ex_vpn6 := mkF [100; 200] [0; 2; 0; 0; 253; 232; 0; 100] 56 [32; 1; 13; 184; 0; 3; 0].
 Example C04_core_family_nonvacuous :
   core_family 2 129 /\ fnlri_wf KVpn 16 ex_vpn6 /\ family_kind 2 129 = Some (KVpn, 16) /\
